@@ -261,6 +261,26 @@ def run(ctx):
             else:
                 r.ok(site, "%s -> %s" % (ot.split("::")[-1][:20], pt.split("::")[-1][:20]), f, c)
 
+    # ------------------------------------------------------------------ fold effect
+    r = rep.rule("R-SIG-FOLD-EFFECT", "every fold has an effect on the signature being built: a combine() whose result is discarded must be a mutating "
+                                      "member (a pure, by-value combine called as a statement folds nothing)", floor=15)
+    for f in sorted(sigfns, key=lambda f: (f.file, f.line)):
+        cls = f.cls.split("::")[-1]
+        seen_k = {}
+        for c in f.calls("CommandSignature::combine"):
+            origin = arg_nodes(c)[0]
+            while origin is not None and origin.get("k") == "cast":
+                origin = origin.child("e")
+            key = "%s::getSignature|effect(%s)" % (cls, expr_str(origin)[:30])
+            seen_k[key] = seen_k.get(key, 0) + 1
+            site = key if seen_k[key] == 1 else "%s#%d" % (key, seen_k[key])
+            pure = bool(c.get("cm")) or not c.ctype().rstrip().endswith("&") and "&" not in c.tname("t")
+            ret_t = c.tname("t")
+            by_value = not c.tname("rt").rstrip().endswith("&")
+            discarded = cfg.is_discarded(f, c)
+            r.check(not (discarded and (c.get("cm") or by_value)), site, "",
+                    "the result of combine(%s) is discarded although combine does not modify the signature in place" % expr_str(origin)[:30], f, c)
+
     # ------------------------------------------------------------------ decodable
     r = rep.rule("R-SIG-DECODABLE", "the sequence of items a getSignature folds is uniquely decodable: a variable-length list is not immediately "
                                     "followed by another variable-length list of the same element domain (moving an element across the boundary "
